@@ -246,7 +246,7 @@ def worker(acc, shard, nshards, tier, seed):
     for sub, nd, s1, s2, wins in universe(tier, seed, shard, nshards):
         nt = check_pair(acc, E, nd, s1, s2, wins)
         acc.case(sub, nontrivial=nt)
-        if acc.states % 101 == 1:
+        if not acc.samples or acc.states % 101 == 1:
             acc.sample({'s1': s1, 's2': s2, 'ndim': nd, 'windows': wins})
     # distance-matrix mirroring on all 3-collections of short series (sharded)
     A = univ.alphabet(univ.BASE3, seed)
